@@ -263,8 +263,39 @@ def set_pairs():
     return [(a, b) for a in exprs for b in exprs]
 
 
+def addgrid_history(alpha, k, step, res):
+    """history of addgrid calls with set strings built at run time: every table must carry exactly the sets of
+    its own string, whatever was requested before (module-level state, object reuse)"""
+    from pyyeti.nastran import n2p
+
+    msgs = []
+    for i, letters in enumerate(itertools.product(alpha, repeat=6)):
+        if i % step != k:
+            continue
+        s = "".join(letters)  # a fresh string object for every call
+        t = "".join(reversed(letters))
+        with warnings.catch_warnings():
+            warnings.simplefilter("ignore")
+            u1 = n2p.addgrid(None, 10, s, 0, [0.0, 0.0, 0.0], 0)
+            u2 = n2p.addgrid(u1, 30, t, 0, [1.0, 2.0, 3.0], 0)
+        res.ev("addgrid-history/%s" % "".join(sorted(set(s))), n=0)
+        for uset, want in ((u1, s), (u2, s + t)):
+            got = ["?"] * len(want)
+            for b in BASE:
+                pv = n2p.mksetpv(uset, "p", b)
+                for j in np.nonzero(pv)[0]:
+                    got[j] = b if got[j] == "?" else got[j] + b
+            if "".join(got) != want:
+                msgs.append("addgrid call #%d of the history: table built from sets %r carries sets %r" % (i, want, "".join(got)))
+                return msgs
+        del u1, u2, s, t
+    return msgs
+
+
 def shards(tier, seed):
     out = []
+    for k in range(4):
+        out.append(dict(part="addgrid_hist", k=k, step=4, alpha="bcq" if tier == "quick" else "bcqos", tier=tier))
     for k in range(16):
         out.append(dict(part="nodes", k=k, step=16, tier=tier))
     alpha = "bcq" if tier == "quick" else "bcqos"
@@ -303,6 +334,10 @@ def run_shard(sh):
             for m in msgs:
                 res.viol(dict(part="perdof", letters=s), m, kind="perdof-" + m.split("(")[0][:25])
         res.sample(dict(part="perdof", letters=s))
+    elif sh["part"] == "addgrid_hist":
+        for m in addgrid_history(sh["alpha"], sh["k"], sh["step"], res):
+            res.viol(dict(sh), m, kind="addgrid-history")
+        res.sample(dict(sh))
     else:
         for m in check_locate(res, sh["which"]):
             res.viol(dict(part="locate", which=sh["which"]), m, kind="locate-" + m.split("(")[0])
@@ -321,4 +356,6 @@ def replay(case):
         s = case["letters"]
         uset, rows = build_table(s, "q", s[::-1])
         return check_table(uset, rows, res, pairs) + check_dofpv(uset, rows, res)
+    if case["part"] == "addgrid_hist":
+        return addgrid_history(case["alpha"], case["k"], case["step"], res)
     return check_locate(res, case["which"])
